@@ -63,6 +63,22 @@ def check_graph(tw, G, rng, fails, tags):
             A.n_automorphisms, [sorted(o) for o in got_orb], want_n, [sorted(o) for o in want_orb])], "pickle": enc(G), "tags": tags})
     if want_n > 1:
         nontrivial = 1
+    # ---- a later analysis of the same graph object after an in-place label change must be exact again
+    if G.number_of_nodes() >= 2:
+        n0 = next(iter(G.nodes))
+        old = G.nodes[n0]["element"]
+        G.nodes[n0]["element"] = "O" if old != "O" else "C"
+        try:
+            comps2 = [G.subgraph(c).copy() for c in nx.connected_components(G)]
+            if len(comps2) == 1:
+                a2 = brute_auts(G)
+                B = Automorphism(G)
+                if B.n_automorphisms != len(a2) or sorted(B.orbits, key=lambda o: sorted(map(repr, o))) != orbits_of(G, a2):
+                    fails.append({"function": "Automorphism._analyze", "violations": [
+                        "history: analysis after an in-place relabelling is stale (n=%s, brute force %s)" % (B.n_automorphisms, len(a2))],
+                        "pickle": enc(G), "tags": dict(tags, clause="history")})
+        finally:
+            G.nodes[n0]["element"] = old
     # ---- the fast estimate never separates two nodes of one true orbit
     est = AutoEst(G, node_attrs=["element", "charge", "aromatic", "hcount"], edge_attrs=["order"])
     est.fit()
